@@ -32,7 +32,7 @@ Definition label_code (l : label) : N :=
   match l with
   | LStart => 1 | LAwait => 2 | LNew => 3 | LAppend => 4 | LFire => 5 | LLookup => 6 | LDeath => 7 | LCas => 8
   | LAssignErr => 9 | LAssignMsg => 10 | LCloseDone => 11 | LCloser => 12 | LLockClose => 13 | LTell => 14
-  | LLockPipe => 15 | LLoad => 16 | LRecv => 17 | LForeign => 18 | LCheck => 19 | LPipeWait => 20 | LNone => 0
+  | LLockPipe => 15 | LLoad => 16 | LRecv => 17 | LForeign => 18 | LCheck => 19 | LPipeWait => 20 | LAppendFwd => 21 | LNone => 0
   end.
 
 Definition tval (v : val) : tm :=
